@@ -1,6 +1,6 @@
 /- Line-protocol driver for the C04 model (ForML.Model.Persist).
 
-  in : (case <comp> <perf> (<action> ...))
+  in : (case <comp> <perf> <sink: true|false> (<action> ...))
          comp   = (comp ((uid gid tag stateful trained) ...) ((pub sub) ...) applyHead applyTail trainHead trainTail)
          perf   = (error) | <comp>
          action = (train|apply|perftrack|serve  none|<generation>  run  hp  shift  <crash>  <race>)
@@ -117,17 +117,17 @@ def runActions (cs : Case) : Registry → List (Action × Extra) → List Sexp
       .list [.atom "ok", Sexp.ofNat reg''.length, .list (obs.map obsSexp)] :: runActions cs reg'' rest
 
 /-- the extracted perftrack composition against the one the model derives from the plain composition -/
-def perfAgrees (plain : Comp) (perf : Except Err Comp) : String :=
-  match plain.perfOf (· + 500000), perf with
+def perfAgrees (plain : Comp) (closed : Bool) (perf : Except Err Comp) : String :=
+  match plain.perfOf (· + 500000) closed, perf with
   | .ok p, .ok q => if p.persistentTags == q.persistentTags then "agree" else "differ"
   | .error _, .error _ => "both-refuse"
   | .ok _, .error _ => "impl-refuses"
   | .error _, .ok _ => "model-refuses"
 
 def stepC04 : Sexp → Sexp
-  | .list [.atom "case", c, p, .list acts] =>
-    match comp? c, perf? p, acts.mapM action? with
-    | some plain, some perf, some acts =>
+  | .list [.atom "case", c, p, snk, .list acts] =>
+    match comp? c, perf? p, bool? snk, acts.mapM action? with
+    | some plain, some perf, some closed, some acts =>
       let cs : Case := ⟨plain, perf⟩
       .list [.atom "ok",
         .list [.atom "wf", Sexp.ofBool plain.wfPlain, Sexp.ofBool cs.wfPerf,
@@ -139,8 +139,8 @@ def stepC04 : Sexp → Sexp
           | some t => Sexp.ofNat t
           | none => .atom "none")),
         .list (runActions cs [] acts),
-        .list [.atom "perfmodel", .atom (perfAgrees plain perf)]]
-    | _, _, _ => .atom "bad-op"
+        .list [.atom "perfmodel", .atom (perfAgrees plain closed perf)]]
+    | _, _, _, _ => .atom "bad-op"
   | _ => .atom "bad-op"
 
 def main : IO Unit := driverLoop stepC04
